@@ -448,7 +448,34 @@ func specialVarConsts(c *Ctx) map[int64]string {
 // binaryOpTokens: tokens the parser can store in BinaryExpr.Op: literal Op values, and the token sets
 // tested by p.matches(...) / passed to binaryLeft(...) / _compare(...) in functions that build BinaryExpr from p.tok.
 func binaryOpTokens(c *Ctx) map[int64]string {
+	if m, ok := c.memo["binaryOpTokens"].(map[int64]string); ok {
+		return m
+	}
 	out := map[int64]string{}
+	c.memo["binaryOpTokens"] = out
+	// what the parser can store into BinaryExpr.Op, by the per-token evaluation of its node builders (gramssa.go):
+	// independent of how the operator lists are written (matches(...) lists, predicates, tables)
+	if g := newGssa(c); g != nil {
+		doms, _ := c.memo["gssa.tokenDomains"].(map[string][]string)
+		if doms == nil {
+			doms = g.tokenDomains()
+			c.memo["gssa.tokenDomains"] = doms
+		}
+		known := len(doms["BinaryExpr.Op"]) > 0
+		for _, t := range doms["BinaryExpr.Op"] {
+			if v, ok := g.toks[t]; ok {
+				out[v] = t
+			} else {
+				known = false
+			}
+		}
+		if known {
+			return out
+		}
+		for k := range out {
+			delete(out, k)
+		}
+	}
 	pp := c.pkg("parser")
 	info := pp.TypesInfo
 	addTok := func(e ast.Expr) {
@@ -944,68 +971,58 @@ func rulePanic(c *Ctx) {
 		}
 		c.atLeast("parser functions that scan a regex literal", n, 1)
 	}
-	// (1) nextRegex reached only under DIV / DIV_ASSIGN
+	// (1) the function that hands over to Lexer.ScanRegex (nextRegex) is reached only when the current token is DIV or
+	// DIV_ASSIGN: every parser function that calls it is run from its entry once per token (gramssa.go) and the
+	// token current at the call is recorded - however the guard is written (case list, matches(...), a predicate
+	// function, a table)
 	pp := c.pkg("parser")
 	nNR := 0
-	for _, fd := range c.allFuncDecls("parser") {
-		if fd.Body == nil {
-			continue
-		}
-		var stack []ast.Node
-		ast.Inspect(fd.Body, func(n ast.Node) bool {
-			if n == nil {
-				stack = stack[:len(stack)-1]
-				return true
-			}
-			stack = append(stack, n)
-			call, ok := n.(*ast.CallExpr)
-			if !ok {
-				return true
-			}
-			se, ok := call.Fun.(*ast.SelectorExpr)
-			if !ok || se.Sel.Name != "nextRegex" {
-				return true
-			}
-			nNR++
-			guard := false
-			for i := len(stack) - 1; i >= 0; i-- {
-				switch g := stack[i].(type) {
-				case *ast.CaseClause:
-					names := map[string]bool{}
-					for _, e := range g.List {
-						names[constName(pp.TypesInfo, e)] = true
-					}
-					if len(names) > 0 && len(names) <= 2 && (names["DIV"] || names["DIV_ASSIGN"]) {
-						ok := true
-						for n := range names {
-							if n != "DIV" && n != "DIV_ASSIGN" {
-								ok = false
+	if g := newGssa(c); g == nil {
+		c.undecided("precondition:nextRegex", token.NoPos, "package parser is not resolvable for the per-token evaluation")
+	} else {
+		// by role: the parser functions that call the lexer's ScanRegex
+		var targets []*ssa.Function
+		for _, fn := range c.srcFuncs("parser") {
+			fn := fn
+			allInstrs(fn, func(in ssa.Instruction) {
+				if ci, ok := in.(ssa.CallInstruction); ok {
+					if cal := ci.Common().StaticCallee(); cal != nil && cal.Name() == "ScanRegex" && cal.Pkg != nil && cal.Pkg.Pkg.Path() == modPath+"/lexer" {
+						for _, t := range targets {
+							if t == fn {
+								return
 							}
 						}
-						if ok {
-							guard = true
-						}
-					}
-				case *ast.IfStmt:
-					if mc, ok := g.Cond.(*ast.CallExpr); ok {
-						if ms, ok := mc.Fun.(*ast.SelectorExpr); ok && ms.Sel.Name == "matches" {
-							ok2 := len(mc.Args) > 0
-							for _, a := range mc.Args {
-								if nm := constName(pp.TypesInfo, a); nm != "DIV" && nm != "DIV_ASSIGN" {
-									ok2 = false
-								}
-							}
-							if ok2 && g.Body.Pos() <= call.Pos() && call.End() <= g.Body.End() {
-								guard = true
-							}
-						}
+						targets = append(targets, fn)
 					}
 				}
+			})
+		}
+		for _, target := range targets {
+			at := g.tokensAtCalls(target)
+			var hosts []*ssa.Function
+			for h := range at {
+				hosts = append(hosts, h)
 			}
-			c.check(guard, "precondition:nextRegex:"+declName(fd), call.Pos(), "nextRegex (hence Lexer.ScanRegex) is called only when the token is DIV or DIV_ASSIGN", "nextRegex is called without the token being known to be DIV/DIV_ASSIGN: Lexer.ScanRegex panics")
-			return true
-		})
+			sort.Slice(hosts, func(i, j int) bool { return fnKey(hosts[i]) < fnKey(hosts[j]) })
+			for _, h := range hosts {
+				toks := at[h]
+				if len(toks) == 0 {
+					continue // the call is not reachable under any token
+				}
+				nNR++
+				guard := true
+				for _, t := range toks {
+					if t != "DIV" && t != "DIV_ASSIGN" {
+						guard = false
+					}
+				}
+				k := strings.ReplaceAll(fnKey(h), "(*", "")
+				k = strings.ReplaceAll(k, ")", "")
+				c.check(guard, "precondition:nextRegex:"+k, h.Pos(), fmt.Sprintf("%s (hence Lexer.ScanRegex) is called only when the token is DIV or DIV_ASSIGN (tokens at the call: %v)", target.Name(), toks), fmt.Sprintf("%s is called while the current token can be %v, not only DIV/DIV_ASSIGN: Lexer.ScanRegex panics", target.Name(), toks))
+			}
+		}
 	}
+	_ = pp
 	c.atLeast("nextRegex call sites", nNR, 2)
 	// (2) PrintStmt/PrintfStmt.Redirect is assigned only from tokens GREATER/APPEND/PIPE
 	for _, fd := range c.allFuncDecls("parser") {
